@@ -25,6 +25,10 @@
 (*              spec says (realiser guard);                                              *)
 (*   jh         JSON of the ONE receiver after the prior documents and then the document *)
 (*              under test were parsed into it = j1: the earlier content has no influence. *)
+(*   kind-level lines (entry "kind" / "wrap", DocModel "Kind-level receivers"): the bare *)
+(*   object of the case through a value of the kind's own Go type or of its reference    *)
+(*   wrapper type: kparse/kfirst the fresh value parses it and serialises it within the   *)
+(*   first-trip contract read at that kind; prior as above; jh = k1.                      *)
 (* Every failed conjunct of every line is written to violations.ndjson with its finding  *)
 (* class; a j1 that differs from the L2 model's prediction is a fidelity warning.        *)
 EXTENDS FindingsC03, Json, CSV
@@ -53,11 +57,25 @@ Generated(line) == line.d.mode # "fixture"
 FirstOK(line) == IF Generated(line) THEN FirstTripOK(line.ver, line.in, line.obs.j1.v)
                  ELSE line.d.src = "yaml" \/ WeakOK(line.obs.j1.v, line.in)
 IsHist(line) == line.hist.entry # "fresh"
+IsKindLine(line) == line.hist.entry \in {"kind", "wrap"}
+(* what the later trips of a line must reproduce: j1, on kind-level lines k1 (the bare object through a fresh value) *)
+BaseName(line) == IF IsKindLine(line) THEN "k1" ELSE "j1"
+Base(line) == line.obs[BaseName(line)]
 (* the trips the spec demands of a line (a trip the harness did not record is a failed trip) *)
 DocTrips(ver) == IF ver = 3 THEN {"j2", "ja", "jb", "ji", "jf", "jk", "ju", "jyu", "jp", "jr", "jl", "jm", "jy", "jv", "jo"}
                  ELSE {"j2", "ja", "ji", "jf", "jk", "ju", "jv", "jm"}
 Later(line) == IF IsHist(line) THEN {"jh"} ELSE DocTrips(line.ver)
+KPriorOK(line) ==
+   /\ line.hist.entry \in KindEntries(line.d.kind)
+   /\ Len(line.obs.pr) = Len(line.hist.prior)
+   /\ \A i \in DOMAIN line.hist.prior :
+         LET p == line.hist.prior[i] IN
+         /\ p.name \in KPriorNames(line.d.kind, line.hist.entry) /\ Same(KPriorDoc(line.d.kind, p.name), p.doc)
+         /\ line.obs.pr[i]
+(* the bare object through a fresh value of its own type: the first-trip contract at the kind's level *)
+KFirstOK(line) == Between(Walk("norm", line.d.kind, line.hist.frag), line.obs.k1.v, line.hist.frag)
 PriorOK(line) ==
+   IF IsKindLine(line) THEN KPriorOK(line) ELSE
    /\ line.hist.entry \in HistEntries(line.ver)
    /\ Len(line.obs.pr) = Len(line.hist.prior)
    /\ \A i \in DOMAIN line.hist.prior :
@@ -70,14 +88,18 @@ Failed(line) ==
    \cup (IF ~line.obs.j1.ok THEN {"parse"}
          ELSE (IF FirstOK(line) THEN {} ELSE {"first"})
               \cup (IF IsHist(line) /\ ~PriorOK(line) THEN {"prior"} ELSE {})
-              \cup {n \in Later(line) : n \notin DOMAIN line.obs \/ ~line.obs[n].ok \/ line.obs[n].v # line.obs.j1.v})
+              \cup (IF IsKindLine(line) /\ ~Base(line).ok THEN {"kparse"}
+                    ELSE (IF IsKindLine(line) /\ ~KFirstOK(line) THEN {"kfirst"} ELSE {})
+                         \cup {n \in Later(line) : n \notin DOMAIN line.obs \/ ~line.obs[n].ok \/ line.obs[n].v # Base(line).v}))
 
 (* where the failed trip first differs: first: vs the input; later trips: vs j1 *)
 At(line, f) ==
    CASE f = "first" -> Diff(line.in, line.obs.j1.v)
      [] f \in DocTrips(2) \cup DocTrips(3) \cup {"jh"} ->
            IF f \notin DOMAIN line.obs THEN <<"!not_recorded">>
-           ELSE IF line.obs[f].ok THEN Diff(line.obs.j1.v, line.obs[f].v) ELSE <<"!" \o line.obs[f].err>>
+           ELSE IF line.obs[f].ok THEN Diff(Base(line).v, line.obs[f].v) ELSE <<"!" \o line.obs[f].err>>
+     [] f = "kfirst" -> Diff(line.hist.frag, line.obs.k1.v)
+     [] f = "kparse" -> <<"!" \o line.obs.k1.err>>
      [] f = "parse" -> <<"!" \o line.obs.j1.err>>
      [] OTHER -> <<>>
 Report(line, f) ==
